@@ -35,42 +35,53 @@ end R
 /-- number of decimal digits of a positive natural -/
 def natDigits (n : Nat) : Nat := (Nat.toDigits 10 n).length
 
-/-- `int(Decimal(a) / Decimal(b))` under `getcontext().prec = 10` for exact rationals `a b`, `b ≠ 0`:
+/-- a positive rational rounded half-even to 10 significant decimal digits (`decimal` arithmetic under
+`getcontext().prec = 10`, which rqalpha's api_stock module sets process-wide) -/
+def roundSig10Pos (m : Rat) : Rat :=
+  let halfEven (y : Rat) : Int :=
+    let f := y.floor
+    let d := y - (f : Rat)
+    if d < 1/2 then f else if d > 1/2 then f + 1 else if f % 2 = 0 then f else f + 1
+  let ip := m.floor.toNat
+  if ip = 0 then
+    -- m < 1: find the scale 10^k (k ≥ 1) with 10^(k-1) ≤ m·10^k... : digits after the leading zeros
+    let rec scaleUp (fuel : Nat) (y : Rat) (k : Nat) : Rat × Nat :=
+      match fuel with
+      | 0 => (y, k)
+      | fuel + 1 => if y < 1 then scaleUp fuel (y * 10) (k + 1) else (y, k)
+    let (y, k) := scaleUp 400 m 0            -- 1 ≤ y < 10, m = y / 10^k
+    let s : Rat := ((10 ^ 9 : Nat) : Rat)
+    ((halfEven (y * s) : Int) : Rat) / s / ((10 ^ k : Nat) : Rat)
+  else
+    let e := natDigits ip
+    if e ≥ 10 then
+      let s : Rat := ((10 ^ (e - 10) : Nat) : Rat)
+      ((halfEven (m / s) : Int) : Rat) * s
+    else
+      let s : Rat := ((10 ^ (10 - e) : Nat) : Rat)
+      ((halfEven (m * s) : Int) : Rat) / s
+
+/-- signed version; 0 stays 0 -/
+def roundSig10Rat (q : Rat) : Rat :=
+  if q = 0 then 0 else if q < 0 then - roundSig10Pos (-q) else roundSig10Pos q
+
+/-- `int(Decimal(a) / Decimal(b))` under `prec = 10` for exact rationals `a b`, `b ≠ 0`:
 the quotient rounded half-even to 10 significant digits, then truncated toward zero. -/
 def decQuot10Rat (a b : Rat) : Int :=
-  let q := a / b
-  if q = 0 then 0 else
-  let neg := q < 0
-  let m := if neg then -q else q           -- m > 0
-  let ip := m.floor.toNat
-  -- exponent e with 10^(e-1) ≤ m < 10^e  (only the case m ≥ 1 matters for truncation; m < 1 ⇒ result 0 or 1)
-  if ip = 0 then
-    -- m < 1: rounding to 10 significant digits can reach 1 only if m ≥ 1 - 5e-11
-    let r : Int := if m * 100000000000 ≥ 99999999995 then 1 else 0
-    if neg then -r else r
-  else
-    let e := natDigits ip                   -- integer part has e digits
-    let r : Rat :=
-      if e ≥ 10 then
-        -- keep 10 significant digits of the integer part: scale down by 10^(e-10)
-        let s : Rat := ((10 ^ (e - 10) : Nat) : Rat)
-        let y := m / s
-        let f := y.floor
-        let d := y - (f : Rat)
-        let k : Int := if d < 1/2 then f else if d > 1/2 then f + 1 else if f % 2 = 0 then f else f + 1
-        (k : Rat) * s
-      else
-        let s : Rat := ((10 ^ (10 - e) : Nat) : Rat)
-        let y := m * s
-        let f := y.floor
-        let d := y - (f : Rat)
-        let k : Int := if d < 1/2 then f else if d > 1/2 then f + 1 else if f % 2 = 0 then f else f + 1
-        (k : Rat) / s
-    let t := r.floor
-    if neg then -t else t
+  let r := roundSig10Rat (a / b)
+  if r < 0 then - ((-r).floor) else r.floor
+
+/-- `round(Decimal(a) * Decimal(b))` under `prec = 10`: product rounded to 10 significant digits, then to the nearest
+integer, both half-even -/
+def decMulRound10Rat (a b : Rat) : Int :=
+  let r := roundSig10Rat (a * b)
+  let f := r.floor
+  let d := r - (f : Rat)
+  if d < 1/2 then f else if d > 1/2 then f + 1 else if f % 2 = 0 then f else f + 1
 
 namespace R
 def decQuot10 (a b : R) : Int := decQuot10Rat a b
+def decMulRound10 (a b : R) : Int := decMulRound10Rat a b
 end R
 
 end RQ.Q
